@@ -4,8 +4,11 @@ From Cicada Require Import Base.Chars Base.Peg Gen.LocustGrammar Model.Script Mo
 From Coq Require Import ZArith Lia.
 Local Open Scope N_scope.
 
-Lemma skel_of_strip : forall ks ls,
-  filter (fun k => negb (t_rule k =? L_EOI)) (map (strip_eoi L_EOI) ks) = map cmd_node ls -> skel ks = Some ls.
+Definition nonempty_l (l : str) : bool := negb (is_empty l).
+
+Lemma skel_of_strip_gen : forall ks ls,
+  filter (fun k => negb (t_rule k =? L_EOI)) (map (strip_eoi L_EOI) ks) = map cmd_node ls ->
+  skel ks = Some (filter nonempty_l ls).
 Proof.
   induction ks as [|k ks IH]; intros ls H.
   - destruct ls; [reflexivity | discriminate H].
@@ -13,13 +16,32 @@ Proof.
     destruct (r =? L_EOI) eqn:E; cbn [negb] in H.
     + apply IH, H.
     + destruct ls as [|l ls]; [discriminate H|]. cbn [map cmd_node] in H.
-      injection H as Hr Hx _ Ht. subst r x. rewrite N.eqb_refl, (IH ls Ht). reflexivity.
+      injection H as Hr Hx _ Ht. subst r x. rewrite N.eqb_refl, (IH ls Ht). cbn [filter]. unfold nonempty_l.
+      destruct (is_empty l); reflexivity.
 Qed.
 
-Theorem parse_ok_flat_parsed : forall b ls, flat_lines b = Some ls -> parse_ok b ->
+Lemma filter_ne_id ls : forallb nonempty_l ls = true -> filter nonempty_l ls = ls.
+Proof.
+  induction ls as [|l ls IH]; intro H; [reflexivity|]. cbn [forallb] in H. apply andb_prop in H as [H1 H2].
+  cbn [filter]. rewrite H1, (IH H2). reflexivity.
+Qed.
+
+Lemma skel_of_strip : forall ks ls, forallb nonempty_l ls = true ->
+  filter (fun k => negb (t_rule k =? L_EOI)) (map (strip_eoi L_EOI) ks) = map cmd_node ls -> skel ks = Some ls.
+Proof. intros ks ls Hn H. rewrite (skel_of_strip_gen ks ls H), (filter_ne_id ls Hn). reflexivity. Qed.
+
+Lemma cmd_ok_ne ls : forallb cmd_ok ls = true -> forallb nonempty_l ls = true.
+Proof.
+  induction ls as [|l ls IH]; intro H; [reflexivity|]. cbn [forallb] in *. apply andb_prop in H as [H1 H2].
+  rewrite (IH H2), andb_true_r. unfold cmd_ok in H1.
+  apply andb_prop in H1 as [H1 _]. apply andb_prop in H1 as [H1 _]. apply andb_prop in H1 as [_ H1].
+  destruct l; [discriminate H1 | reflexivity].
+Qed.
+
+Theorem parse_ok_flat_parsed : forall b ls, flat_lines b = Some ls -> forallb nonempty_l ls = true -> parse_ok b ->
   flat_parsed (render_block b) ls.
 Proof.
-  intros b ls Hfl [p [kids [Hp Hm]]].
+  intros b ls Hfl Hne [p [kids [Hp Hm]]].
   destruct (flat_lines_spec b ls Hfl) as [_ Hk].
   destruct kids as [|k [|k2 kids]]; try discriminate Hm.
   cbn [map] in Hm. injection Hm as Hm.
@@ -27,7 +49,7 @@ Proof.
   unfold tree_of_script in Hm. cbn [strip_eoi] in Hm. injection Hm as Hr Hx Hf.
   rewrite Hk in Hf. change cmd_t with cmd_node in Hf.
   exists p, [], [k], r, x, kids0. split; [exact Hp|]. split; [cbn [map]; rewrite A; reflexivity|].
-  apply skel_of_strip, Hf.
+  apply skel_of_strip; [exact Hne | exact Hf].
 Qed.
 
 (** a text of the flat fragment: parsed (with the fuel parse_from computes) to its lines, or out of fuel *)
@@ -37,5 +59,5 @@ Theorem flat_text_parsed : forall b, frag_flat b = true ->
 Proof.
   intros b H. destruct (parse_flat_from b H) as [F|P]; [left; exact F|right].
   unfold frag_flat in H. destruct (flat_lines b) as [ls|] eqn:E; [|discriminate H].
-  exists ls. split; [reflexivity|]. apply parse_ok_flat_parsed; assumption.
+  exists ls. split; [reflexivity|]. apply parse_ok_flat_parsed; [exact E | apply cmd_ok_ne, H | exact P].
 Qed.
